@@ -7,6 +7,7 @@ package main
 // each request is a `serve` correspondence case and passes the fail-closed monitors.
 
 import (
+	"context"
 	"fmt"
 	"net"
 	"net/http"
@@ -16,7 +17,9 @@ import (
 	"sync/atomic"
 	"time"
 
+	sessionsapi "github.com/oauth2-proxy/oauth2-proxy/v7/pkg/apis/sessions"
 	"github.com/oauth2-proxy/oauth2-proxy/v7/pkg/requests"
+	"github.com/oauth2-proxy/oauth2-proxy/v7/providers"
 )
 
 type scenario struct {
@@ -691,6 +694,42 @@ func init() {
 						c.count("claimfault:" + cf.name)
 					}
 				}
+				// Re-validation when the refresh failed: a stale session whose ID token does NOT verify against the provider's keys
+				// (signed by another key under the known key id, so the verifier re-fetches the keys) x every kind of failure of
+				// the key endpoint: the session must not be kept
+				for _, k := range kinds {
+					if k.name == "no-id-token" || k.name == "no-access-token" || k.name == "garbage-id-token" || k.name == "wrong-types" {
+						continue
+					}
+					k := k
+					s := e.sessionFor(u, 2*time.Hour)
+					e.idp.mu.Lock()
+					e.idp.signAlg = "other"
+					e.idp.mu.Unlock()
+					s.IDToken = e.idp.idToken(u, e.idp.refreshNonce)
+					e.idp.mu.Lock()
+					e.idp.signAlg = ""
+					e.idp.mu.Unlock()
+					s.RefreshToken = fmt.Sprintf("rt-vk-%d", time.Now().UnixNano()) // unknown to the IdP: the refresh fails
+					ck := e.issueSessionCookie(s)
+					e.idp.mu.Lock()
+					e.idp.fault = func(endpoint string, n int, w http.ResponseWriter, r *http.Request) bool {
+						if endpoint == "/keys" {
+							k.f(w, r)
+							return true
+						}
+						return false
+					}
+					e.idp.mu.Unlock()
+					v := e.do(reqSpec{Target: "/app/x", Cookie: ck})
+					resetIDP(e.idp)
+					c.casen(fmt.Sprintf("c14|validate-keys|%v|%v|%s", redis, audClaims, k.name), fmt.Sprint(v.Status))
+					c.count("c14:validate-keys-fault")
+					if len(v.Hits) > 0 || hasSessionSet(v, e.opts.Cookie.Name) {
+						c.violation("C14", "a stale session whose ID token does not verify was kept because the key endpoint failed ("+k.name+") during re-validation",
+							map[string]interface{}{"keys_endpoint": k.name, "status": v.Status, "forwarded": len(v.Hits) > 0, "cfg": fmt.Sprintf("%+v", cfg)})
+					}
+				}
 				// Sweeps over the REAL token-endpoint answer (login and refresh): every strict prefix of the body
 				// (truncated JSON at every byte position) and every single-character corruption of the id_token
 				// must create / extend no session.  quick: evenly spaced sample + boundaries; thorough: every position.
@@ -846,6 +885,45 @@ func init() {
 			e.idp.mu.Unlock()
 			e.close()
 		}
+		// Token validation endpoint (providers that re-validate a session with the access token: the ProviderData default
+		// and everything built on it): ONLY a 200 answer validates — every other status, and every transport failure, does not.
+		{
+			var status atomic.Int64
+			vsrv := httptest.NewServer(http.HandlerFunc(func(w http.ResponseWriter, r *http.Request) {
+				st := int(status.Load())
+				if st == 0 {
+					if hjk, ok := w.(http.Hijacker); ok {
+						conn, _, _ := hjk.Hijack()
+						conn.Close()
+					}
+					return
+				}
+				w.WriteHeader(st)
+				w.Write([]byte(`{"active":true}`))
+			}))
+			vu, _ := url.Parse(vsrv.URL + "/validate")
+			pd := &providers.ProviderData{ProviderName: "verif-default", ValidateURL: vu}
+			statuses := []int{0, 200, 201, 202, 204, 206, 300, 301, 302, 304, 400, 401, 403, 404, 408, 409, 410, 418, 429, 451, 500, 501, 502, 503, 504}
+			if c.scale > 1 {
+				for st := 200; st < 600; st++ {
+					statuses = append(statuses, st)
+				}
+			}
+			for _, st := range statuses {
+				if st == 301 || st == 302 || st == 303 || st == 307 || st == 308 {
+					continue // would be followed to nowhere; covered by the transport-failure case
+				}
+				status.Store(int64(st))
+				got := pd.ValidateSession(context.Background(), &sessionsapi.SessionState{AccessToken: "some-access-token"})
+				c.casen(fmt.Sprintf("c14|validate|%d", st), fmt.Sprint(got))
+				c.count("c14:validate-status")
+				if got != (st == 200) {
+					c.violation("C14", fmt.Sprintf("token validation endpoint answered status %d and the session was reported valid=%v (only 200 validates)", st, got),
+						map[string]interface{}{"status": st, "valid": got, "provider": "ProviderData default (validateToken)"})
+				}
+			}
+			vsrv.Close()
+		}
 		// The shared identity-provider request helper (pkg/requests: default code redemption, token
 		// validation, profile look-ups) must report a response whose body was cut short as an ERROR,
 		// never as a (shorter) successful response: status 200 + Content-Length n, fewer than n bytes, close.
@@ -898,6 +976,6 @@ func init() {
 			}
 			srv.Close()
 		}
-		c.close([]string{"c14:faulted", "c14:clean", "idpfault:reset", "idpfault:oversized", "claimfault:aud-number", "claimfault:alg-none", "c14:short-read", "c14:keycloak", "c14:sweep:prefix", "c14:sweep:idtoken-char"})
+		c.close([]string{"c14:faulted", "c14:clean", "idpfault:reset", "idpfault:oversized", "claimfault:aud-number", "claimfault:alg-none", "c14:short-read", "c14:keycloak", "c14:sweep:prefix", "c14:sweep:idtoken-char", "c14:validate-status", "c14:validate-keys-fault"})
 	})
 }
